@@ -37,6 +37,9 @@ def check(run):
         from . import C06 as _C06c
         bc = run.borrow("C06", only=r"optimize|key-is-rule-address|evictors", why="explicit optimisation re-allocates the rules: compiled regexes cached under the old addresses must be dropped, in every build configuration")
         run.guard("C05.via.C06.3.cache-key-validity", cfg, lambda: _C06c.rule_cache_key(bc, F, cfg))
+        from . import C13 as _C13t
+        bt = run.borrow("C13", why="optimisation reorders the buckets: the redirect chosen among matching rules must not depend on the order they are visited in")
+        run.guard("C05.via.C13.6.priority-suffix", cfg, lambda: _C13t.rule_tie_break(bt, F, cfg))
 
 
 def select_constraints(F):
@@ -378,6 +381,21 @@ def rule_disjunction(run, F, cfg):
             after_set = any(re.search(r"^discr\(regex::bytes::RegexSetBuilder::build\(", k) and v == 1 for k, v in c.items())
             if after_set:
                 errs.append((cr.loc(b), any(cr.dominates(fb, b) for fb in flt)))
+    # every set is built with room for each of its members: the regex crate's limit on one compiled program applies to
+    # the whole set, so a group of large patterns that are each fine on their own would fail to compile as a set, and
+    # (all members being valid) the whole fused filter would never match
+    lim = []
+    for b, t in cr.calls(r"RegexSetBuilder::build$"):
+        recv = cr.expr_operand(t["args"][0])
+        m_ = re.search(r"RegexSetBuilder::size_limit\(.*, (\(core::num::saturating_mul\(|\()?(.*)\)$", recv)
+        arg = [cr.expr_operand(t2["args"][1]) for b2, t2 in cr.calls(r"RegexSetBuilder::size_limit$") if cr.dominates(b2, b)]
+        good = bool(arg) and all(re.search(r"(saturating_mul|wrapping_mul|MulWithOverflow|Mul)", a) and re.search(r"::len\(", a)
+                                 and re.search(r"DEFAULT_REGEX_SIZE_LIMIT|10485760", a) for a in arg)
+        lim.append((cr.loc(b), good, [a[:90] for a in arg]))
+    dl = F.consts.get("regex_manager::DEFAULT_REGEX_SIZE_LIMIT", {}).get("val", {}).get("int")
+    run.ob("C05.4.disjunction", "set-size-limit-scales-with-members", len(lim) >= 2 and all(g_ for _, g_, _ in lim) and (dl or 0) >= 10 * (1 << 20),
+           "every RegexSet of compile_regex is built with size_limit = number of patterns x the single-regex limit "
+           f"(DEFAULT_REGEX_SIZE_LIMIT = {dl}, the regex crate's default is 10 MiB): {lim}", site=cr.loc(0), config=cfg)
     run.ob("C05.4.disjunction", "invalid-member-isolated", bool(errs) and all(okf for _, okf in errs),
            "when the RegexSet of a fused filter fails to compile, compile_regex falls back to the patterns that compile "
            "on their own; RegexParsingError (which never matches) is produced only after that per-pattern filter. "
